@@ -356,6 +356,12 @@ func (c *normCtx) tryExtract(value ast.Value, expected Input) (ast.Value, bool) 
 	if expected == nil {
 		return value, false
 	}
+	// A literal that is not valid for its position stays where it is, so
+	// that validation of the rewritten document still rejects the request
+	// (valueFromAST turns an ill-typed list element into nil).
+	if ok, _ := isValidLiteralValue(expected, value); !ok {
+		return value, false
+	}
 	// Coerce literal once at extract time. We pass nil variableValues
 	// because we already know the value tree contains no variables.
 	coerced := valueFromAST(value, expected, nil)
